@@ -169,7 +169,9 @@ def prepare_config(cfg: dict, ctx: RunContext) -> dict:
         # option values written as {"__np__": dtype, "value": v} stand for NumPy scalars (what a user gets from
         # arithmetic on arrays), which a JSON scenario cannot hold directly
         for key, val in list(opt["options"].items()):
-            if isinstance(val, dict) and "__np__" in val:
+            if isinstance(val, dict) and val.get("__np__") == "array":
+                opt["options"][key] = np.array(val["value"], dtype=val["dtype"]).reshape(val["shape"])
+            elif isinstance(val, dict) and "__np__" in val:
                 opt["options"][key] = getattr(np, val["__np__"])(val["value"])
     return cfg
 
@@ -238,6 +240,18 @@ def _run_built(ctx: RunContext, built: dict, configs: list[dict], variables=None
                 cfg = EnOptConfig.model_validate(cfg, context=ctx.transforms)
             except Exception:  # noqa: BLE001 - an invalid configuration: let the step report it as usual
                 pass
+        if isinstance(cfg, dict) and ctx.scn.get("subconfig_objects"):
+            # the user builds the variable and non-linear constraint settings as objects of their own (created once,
+            # user domain) and puts the same objects into the configuration of every step
+            from ropt.config.enopt import NonlinearConstraintsConfig, VariablesConfig
+
+            store = ctx.__dict__.setdefault("subconfig_store", {})
+            if sspec["cfg"] not in store:
+                objs = {"variables": VariablesConfig(**cfg["variables"])}
+                if cfg.get("nonlinear_constraints"):
+                    objs["nonlinear_constraints"] = NonlinearConstraintsConfig(**cfg["nonlinear_constraints"])
+                store[sspec["cfg"]] = objs
+            cfg.update(store[sspec["cfg"]])
         kwargs: dict[str, Any] = {"config": cfg}
         if ctx.transforms is not None:
             kwargs["transforms"] = ctx.transforms
